@@ -1,10 +1,10 @@
 package main
 
 import (
-	"time"
-	"go/constant"
 	"fmt"
+	"go/constant"
 	"strings"
+	"time"
 
 	"golang.org/x/tools/go/ssa"
 )
@@ -328,6 +328,8 @@ func rulesC03(e *Engine, r *Report) {
 	// ---------------------------------------------------------------- R03.14
 	r.Rule("R03.14", "no pool of zero workers: every counted goroutine pool of the sender (`for i := 0; i < n; i++ { go … }` - senders, retriers, hash workers) is sized by a constant >= 1 or by a client.Conf field that package main fills, after setDefaults succeeded, from an option which setDefaults leaves positive or refuses on every path that returns no error (with `threads` omitted the pools were empty and the channels unbuffered: the first scan blocked for ever handing its files to hash workers that did not exist)")
 	e.checkPoolSizesPositive(r, "R03.14")
+	// ---------------------------------------------------------------- R03.15
+	e.shareRule(r, "C18", "R18.5", "R03.15", "a predecessor delivered today is found: the day loop of the log visits every day of the window including the last one, whatever the times of day of its ends - the receiver's cache refill after a restart and the search for a predecessor's record both run on it, and a successor whose predecessor's record is skipped is parked for good")
 }
 
 // checkFailedCompanionDiscarded: the record of ranges of an attempt that
